@@ -92,6 +92,10 @@ DESC = {
  "C10c": "`REPLACE` mode falls through in `_register_datasets`: no location row (datasets stored by `transfer_from`)",
  "C13c": "defaults merged before the dimension group is inferred in `standardize` (default instrument, data ID without it)",
  "C16d": "`yield_per` → `limit` in `any(exact=True)` with post-filtering (first 10 raw rows all rejected)",
+ "C03d": "`done` guard moved inside the CHAINED branch of `_filter_collections.recurse` (repeated non-chained collection in the path; rank dict keeps the last index)",
+ "C05c": "end of a timespan inclusive in SQL `contains(time)` (`timespan OVERLAPS time` at exactly the end bound)",
+ "C08c": "`@transactional` dropped from `Butler.ingest` (death between registry commit and datastore records)",
+ "C11d": "canonicalisation of empty timespans only on the public constructor path (intersection of disjoint spans)",
  "C20a": "dimension-group re-read moved out of the locked block (two clients, new dimension group)",
  "C20b": "`ensureTableExists` no longer absorbs SQLite's 'table already exists' (two clients, new dynamic table)",
 }
